@@ -197,6 +197,128 @@ def worker(args):
     return hutil.export(chk)
 
 
+DET_REPLAY = r'''
+# Replay for C23 (determinism): the generated text under 48 different hash seeds must be one and the same.
+import sys, os, json, subprocess
+case = json.loads(%r)
+CHILD = r"""
+import sys, io, json
+import cffi
+from cffi import recompiler
+case = json.loads(sys.argv[1])
+ffi = cffi.FFI()
+ffi.cdef(case['cdef'])
+ffi.set_source('_verif_det', None if case['target'] == 'py' else '')
+f = io.StringIO()
+r = recompiler.Recompiler(ffi, '_verif_det', target_is_python=(case['target'] == 'py'))
+r.collect_type_table(); r.collect_step_tables()
+r.write_source_to_f(f, None if case['target'] == 'py' else '')
+sys.stdout.write(f.getvalue())
+"""
+texts = set()
+for seed in range(48):
+    env = dict(os.environ, PYTHONHASHSEED=str(seed))
+    r = subprocess.run([sys.executable, '-W', 'ignore', '-c', CHILD, json.dumps(case)], env=env, stdout=subprocess.PIPE, stderr=subprocess.PIPE)
+    if r.returncode != 0:
+        print('HARNESS: generator failed:', r.stderr.decode()[-500:]); sys.exit(3)
+    texts.add(r.stdout)
+if len(texts) > 1:
+    print('VIOLATED: %%d different generated texts under 48 hash seeds' %% len(texts)); sys.exit(1)
+sys.exit(0)
+'''
+
+DET_CDEFS = {
+    'functions': ('typedef struct s1 { int a; char *b[3]; } s1_t; enum e { A, B = 5 }; union u { long x; double y; };'
+                  'int f1(int, s1_t *); void f2(struct s1, char *, ...); s1_t f3(int (*)(int, long), union u *); extern int g1;'
+                  'static const int K = 3; extern "Python" int cb(s1_t *, double);'),
+    'many-pointer-args': 'int f(char *, short *, long *, float *, void *, int **); void g(int *, int *);',
+    'typedefs': 'typedef int a_t; typedef a_t *b_t; typedef b_t c_t[4]; typedef struct { c_t x; size_t n; wchar_t w; } d_t; d_t *h(intptr_t, ssize_t);',
+}
+
+
+def determinism_worker(args):
+    """Every iteration over a `set` in the text generator and in the cdef parser is nondeterministic in CPython (str hashes
+    depend on PYTHONHASHSEED): `set` is rebound, in cffi.recompiler and cffi.cparser, to a subclass whose iteration order
+    is chosen by the explorer -- every order is a path.  The emitted text must be the same on every path."""
+    prop, tier, what, cname, target = args
+    chk = hutil.sub_check(prop, tier)
+    label = 'determinism:%s:%s' % (cname, target)
+    sys.path.insert(0, os.path.join(common.REPO, 'src'))
+    for k in [k for k in sys.modules if k == 'cffi' or k.startswith('cffi.')]:
+        del sys.modules[k]
+    import cffi
+    from cffi import recompiler, cparser, model
+    import io, warnings
+    warnings.simplefilter('ignore')
+    ex = pysym.PyExplorer()
+    state = {'iterated': 0, 'forks': 0}
+
+    class NSet(set):
+        def __iter__(self):
+            items = sorted(set.__iter__(self), key=repr)
+            state['iterated'] += 1
+            out = []
+            while items:
+                k = 0
+                while k < len(items) - 1:
+                    state['n'] += 1
+                    if ex.decide(z3.Bool('set_order_%d' % state['n'])):
+                        break
+                    k += 1
+                if len(items) > 1:
+                    state['forks'] += 1
+                out.append(items.pop(k))
+            return iter(out)
+    for m in (recompiler, cparser, model):
+        m.set = NSet
+    texts = set()
+    first = {}
+
+    def emit():
+        ffi = cffi.FFI()
+        src = DET_CDEFS[cname]
+        if target == 'py':
+            src = src.replace('extern "Python" int cb(s1_t *, double);', '')      # not allowed in ABI mode
+        ffi.cdef(src)
+        ffi.set_source('_verif_det', None if target == 'py' else '')
+        f = io.StringIO()
+        r = recompiler.Recompiler(ffi, '_verif_det', target_is_python=(target == 'py'))
+        r.collect_type_table()
+        r.collect_step_tables()
+        r.write_source_to_f(f, None if target == 'py' else '')
+        return f.getvalue()
+
+    def h(ex):
+        state['n'] = 0
+        text = emit()
+        if 'text' not in first:
+            first['text'] = text
+        hutil.witness(chk, ex, label)
+        import time
+        t0 = time.time()
+        same = text == first['text']
+        chk.query(label + ':same-text-for-this-iteration-order', 'unsat' if same else 'sat', time.time() - t0)
+        if not same:
+            src = DET_CDEFS[cname]
+            if target == 'py':
+                src = src.replace('extern "Python" int cb(s1_t *, double);', '')
+            path = chk.write_replay('hashseed', DET_REPLAY % json.dumps({'cdef': src, 'target': target}))
+            rc, out = common.run_replay(path, timeout=600)
+            chk.report_failure('%s: the generated text depends on the iteration order of a set (PYTHONHASHSEED)' % label, {}, path,
+                               common.replay_verdict(rc, out))
+    res = ex.explore(h, max_paths=5000)
+    hutil.finish_explore(chk, ex, res, label)
+    chk.extra['sets iterated by the generator/parser (all runs)'] = state['iterated']
+    chk.extra['iteration-order forks explored'] = state['forks']
+    chk.functions = [{'name': 'Recompiler.collect_type_table/collect_step_tables/write_source_to_f', 'file': 'src/cffi/recompiler.py'},
+                     {'name': 'Parser._parse/_common_type_names', 'file': 'src/cffi/cparser.py'}]
+    return hutil.export(chk)
+
+
+def dispatch(args):
+    return determinism_worker(args) if args[2] == 'determinism' else worker(args)
+
+
 def run(chk):
     quick = chk.tier == 'quick'
     P = (chk.prop, chk.tier)
@@ -211,9 +333,13 @@ def run(chk):
     chk.bounds = {'old content': 'absent, or every ASCII string of length 0..%d' % N, 'new content': 'every ASCII string of length 0..%d' % N,
                   'crash points': 'every mutating file-system operation of the write path (create/truncate, write with any '
                   'prefix written, rename, unlink) and no crash'}
-    chk.outside = ['identical output across processes / hash seeds (a fact about the text generator and CPython hashing; no check claims it)',
+    for cname in DET_CDEFS:
+        for target in ('c', 'py'):
+            cases.append(P + ('determinism', cname, target))
+    chk.bounds['determinism'] = 'three cdefs x C and Python targets x every iteration order of every set the generator / parser iterates over'
+    chk.outside = ['other sources of nondeterminism than set iteration order (dicts are insertion-ordered; id()-based ordering is not used)',
                    'the non-POSIX fallback (unlink then rename) taken only if os.rename raises: rename never fails in the POSIX model',
                    'the text generator (Recompiler) itself: replaced by a stub producing an arbitrary text']
     chk.assume('POSIX file system: rename() replaces the target atomically and does not fail; a crashing write leaves a prefix')
     chk.functions = [{'name': '_make_c_or_py_source', 'file': 'src/cffi/recompiler.py'}]
-    hutil.run_cases(chk, cases, worker)
+    hutil.run_cases(chk, cases, dispatch)
